@@ -283,6 +283,10 @@ def finding_signature(hist, res):
     crash = res["crash"] or ""
     ops = [o.strip() for o in hist.split(";")]
     probe = ops[-1].split()
+    for oi, o in enumerate(res.get("ops", [])):
+        stt = o.get("S", "").split()
+        if len(stt) >= 2 and ((stt[0] != "c:-" and not stt[0].startswith("c:100,")) or (stt[1] != "d:-" and not stt[1].startswith("d:200,"))):
+            return "errpath:global_state-not-START-after:" + (ops[oi + 1].split()[0] if oi + 1 < len(ops) else "?")
     if "jdapistd.c" in crash and "read_and_discard_scanlines" in crash and "use-after-free" in crash:
         return "F5:stale-cconvert:skip-scanlines-merged-upsampling"
     # the same defect without a sanitizer: the stale pointer is read and written silently, the pixels may differ
@@ -386,6 +390,13 @@ def run_hists(ctx, hists, exes, drv, flavours):
                     res["fresh"].get("rc"), res["fresh"].get("st"), res["fresh"].get("h"))
             elif res["kind"] == "L" and res["fresh"] and (res["fresh"].get("rc") != res["ops"][-1].get("rc") or res["fresh"].get("h") != res["ops"][-1].get("h")):
                 bad = "libjpeg API: reused object gives a different result than a fresh object (%s build)" % fl
+            if not bad and res["kind"] == "R":
+                # (1) on the implementation: after every call both objects are back in their START state
+                for oi, o in enumerate(res["ops"]):
+                    stt = o.get("S", "").split()
+                    if len(stt) >= 2 and ((stt[0] != "c:-" and not stt[0].startswith("c:100,")) or (stt[1] != "d:-" and not stt[1].startswith("d:200,"))):
+                        bad = "after call %d the instance is not back in its START state (%s %s) (%s build)" % (oi + 1, stt[0][:6], stt[1][:6], fl)
+                        break
             if bad:
                 ndiff += 1
                 sig = finding_signature(h, res)
